@@ -3,21 +3,26 @@ from pyvc.spec import klass, fn
 
 FIT_PARAMS = {'decisions': 'aseq', 'rewards': 'rseq', 'contexts': 'opt:mat'}
 ARM_PARAMS = {'arm': 'arm', 'binarizer': 'opt:callable', 'scaler': 'opt:callable'}
+INIT_PARAMS = {'rng': 'rng', 'arms': 'list:arm', 'n_jobs': 'int', 'backend': 'optopaque'}
+PRED_PARAMS = {'contexts': 'opt:mat'}
 
 klass('_NumpyRNG', fields={'seed': 'int', 'rng': 'obj:np.Generator'})
-klass('np.Generator', fields={'state': 'opaque'})
+klass('np.Generator', fields={'state': 'rngstate'})
 
+# Naming of invariant clauses: arms.* relate the per-arm dictionaries to the arm list (temporarily broken inside
+# add_arm / remove_arm, where MAB has already updated the shared list); keys.* relate the dictionaries to each
+# other; stat.* are the statistics.
 klass('BaseMAB',
       fields={'rng': 'rng', 'arms': 'list:arm', 'n_jobs': 'int const', 'backend': 'optopaque const',
               'arm_to_expectation': 'map:real', 'arm_to_status': 'map:status'},
-      inv=['[C08,keys.arms] distinct(self.arms)',
-           '[C08,keys.exp] keys(self.arm_to_expectation) == self.arms',
-           '[C08,keys.status] keys(self.arm_to_status) == self.arms',
+      inv=['[C08,arms.link] keys(self.arm_to_expectation) == self.arms',
+           '[C08,keys.distinct] distinct(keys(self.arm_to_expectation))',
+           '[C08,keys.status] keys(self.arm_to_status) == keys(self.arm_to_expectation)',
            '[C05,keys.jobs] self.n_jobs != 0'])
 
 # tiny helpers without a contract of their own are executed at their call sites (inline):
 #   utils.check_true, utils.check_false, utils.reset, utils.argmax, utils.argmin, utils.create_rng,
-#   _NumpyRNG.*, BaseMAB._parallel_fit, BaseMAB._reset_arm_to_status
+#   _NumpyRNG.*, BaseMAB.__init__, BaseMAB._parallel_fit, BaseMAB._reset_arm_to_status
 
 fn('base_mab.BaseMAB._effective_jobs', props='C05',
    params={'size': 'int', 'n_jobs': 'int'},
@@ -25,3 +30,39 @@ fn('base_mab.BaseMAB._effective_jobs', props='C05',
    ensures=['[bounds] 1 <= result and result <= size',
             '[sequential] implies(n_jobs == 1, result == 1)'],
    result='int')
+
+
+def status_fresh(a='a'):
+    return ('(not val(self.arm_to_status, %s, "is_trained") and not val(self.arm_to_status, %s, "is_warm") and '
+            'val(self.arm_to_status, %s, "warm_started_by") == NONE_ARM())' % (a, a, a))
+
+
+def forall_arms(body):
+    return 'forall_arm(lambda a: implies(inkeys(self.arm_to_expectation, a), %s))' % body
+
+
+def pe_result(run, env):
+    """Kind of the value predict_expectations / predict return: one result for no contexts or one row, else a list."""
+    from pyvc.values import NoneV, MapO, SymListO
+    from pyvc.smt import fresh, ASeq, Arm, Real, Int
+    from pyvc.lib import mrows, PVArr
+    import z3
+    ctx = env.get('contexts')
+    single = isinstance(ctx, NoneV) or run.branch(mrows(ctx.term) == 1)
+    if single:
+        return run.st.alloc(MapO(fresh('pe_keys', ASeq), {'': fresh('pe_vals', z3.ArraySort(Arm, Real))}, {'': 'real'}))
+    return run.st.alloc(SymListO(fresh('pe_len', Int), fresh('pe_elems', PVArr), 'dict'))
+
+
+def pred_result(run, env):
+    from pyvc.values import NoneV, ArmV, SeqV
+    from pyvc.smt import fresh, ASeq, Arm
+    from pyvc.lib import mrows
+    ctx = env.get('contexts')
+    single = isinstance(ctx, NoneV) or run.branch(mrows(ctx.term) == 1)
+    if single:
+        return ArmV(fresh('pred', Arm))
+    return SeqV('A', fresh('preds', ASeq), True)
+
+
+SINGLE = '(is_none(contexts) or rows(contexts) == 1)'
